@@ -305,6 +305,13 @@ def run_sparse_case(case, res):
         ims.write_instruction(a, o)
     rc = RefCache(cfg["ib"], cfg["bb"], cfg["assoc"], cfg["policy"], False)
     for a in case["fetches"]:
+        if isinstance(a, list):
+            # the identical instruction is written again to an address that may already be cached: a write is not a
+            # fetch (counters and replacement order are those of the fetch addresses alone)
+            ims.write_instruction(a[1], objs[a[1]])
+            plain.write_instruction(a[1], objs[a[1]])
+            res.count("rewrites_between_fetches")
+            continue
         r = ims.read_instruction(a)
         rc.access(a, False)
         res.count("sparse_fetches")
@@ -356,6 +363,8 @@ def gen_sparse_case(rng):
             d = G._alu(rng, [1, 2, 3, 5])
         image.append((4 * sl, d))
     fetches = [4 * rng.choice(slots) for _ in range(rng.randint(5, 40))]
+    if rng.random() < 0.4:
+        fetches = [f_ if rng.random() > 0.2 else ["w", 4 * rng.choice(slots)] for f_ in fetches]
     case = {"kind": "sparse", "icache": rand_icfg(rng), "image": image, "fetches": fetches}
     if rng.random() < 0.3:
         lo = 4 * slots[0] if rng.random() < 0.5 else 0
@@ -363,7 +372,7 @@ def gen_sparse_case(rng):
             # image shifted up so that the range can start inside a block
             sh = 4 * rng.choice([1, 2, 3, 5])
             case["image"] = [(a + sh, d) for a, d in image]
-            case["fetches"] = [a + sh for a in fetches]
+            case["fetches"] = [(a + sh) if not isinstance(a, list) else ["w", a[1] + sh] for a in fetches]
             lo = sh
         hi = max(a for a, _ in case["image"]) + 4 * rng.choice([1, 1, 2, 3])
         case["range"] = [lo, hi]
